@@ -219,7 +219,7 @@ def eval_schema(prop):
                 # independent oracle (harness/oracle: documented rules on the abstract descriptor, no shared code)
                 orc = (b.get('oracle') or {}).get(t)
                 if orc is not None and prop in ('C02', 'C10'):
-                    okeys = [k for k in keys if k not in ('ty', 'custom')]
+                    okeys = [k for k in keys if k not in ('custom',)]
                     d = oracle_diff(tree, orc, okeys)
                     if d:
                         out['violations'].append({'kind': f'schema deviates from the documented rules ({prop})', 'batch': b['dir'], 'type': t, 'diff': d})
@@ -241,6 +241,8 @@ def oracle_diff(tree, orc, keys, path=''):
                 continue
             if k == 'nest' and o.get('kind') == 'custom':
                 continue
+            if k == 'ty' and (o.get('kind') in ('custom', 'injected', 'placeholder') or o.get('ty') is None):
+                continue        # custom types: the user's hook decides; injected / placeholder: own rules; nested objects: no Type
             if a.get(k) != o.get(k):
                 return f'{path}/{n}.{k}: generated {json.dumps(a.get(k))} expected {json.dumps(o.get(k))}'
         if o.get('attrs') is not None or a.get('attrs') is not None:
@@ -285,10 +287,12 @@ def shuffled(case, rnd):
 def eval_c14(batches, tier, seed, known, info):
     out = {'evaluations': 0, 'violations': [], 'tie_breaks': [], 'distinct': [], 'samples': [], 'coverage': {}, 'known': {}}
     rnd = random.Random(seed)
-    runs = 5 if tier == 'quick' else 25
-    for b in batches[: (3 if tier == 'quick' else len(batches))]:
+    for bi, b in enumerate(batches[: (3 if tier == 'quick' else len(batches))]):
         if not b['plugin'] or not b['plugin'].get('parsed'):
             continue
+        # the first batch is the shape-coverage case (several promoted oneofs, injected fields, every option map): more process
+        # runs there - an order taken from Go's map iteration shows up in a fraction of the runs only
+        runs = (24 if bi == 0 else 5) if tier == 'quick' else (60 if bi == 0 else 25)
         base = run_variant(info, 'c14base', b['case'], repeat=runs)
         shas = set(base['plugin'].get('runShas', []))
         out['evaluations'] += runs
@@ -999,6 +1003,43 @@ def eval_c17(batches, tier, seed, known, info):
             if m:
                 out['violations'].append({'kind': 'the generated code calls hook functions that do not follow the suffix rule', 'batch': b['dir'],
                                           'undefined': sorted(set(m)), 'hooks_provided': [h['Suffix'] for h in (b['meta'] or {}).get('Hooks', [])]})
+    # delegation, observed on the implementation's own call log: a CopyFrom / CopyTo call of a type hands EVERY custom attribute of
+    # its top level (fields of embedded messages included) to the hook named by the suffix rule - whatever the attribute holds
+    # (null, unknown, missing) and whatever the target holds - and to no other function
+    calls_checked = 0
+    for b in batches:
+        if b['status'].get('stage') != 'done' or not b['static']:
+            continue
+        for op, im in zip(b['ops'], b['impl']):
+            tag = op.get('tag')
+            if tag not in ('from', 'from-payload', 'from-malformed', 'to-empty') or im.get('panic'):
+                continue
+            tree = (b['static'].get('schemas') or {}).get(op.get('type')) or {}
+            want = {}
+            for a, v in tree.items():
+                if v.get('custom'):
+                    fn = ('CopyTo' if tag == 'to-empty' else 'CopyFrom') + v['custom']
+                    want[fn] = want.get(fn, 0) + 1
+            if not want:
+                continue
+            got = {}
+            for h in im.get('hooks') or []:
+                got[h.get('fn')] = got.get(h.get('fn'), 0) + 1
+            calls_checked += sum(want.values())
+            short = {fn: (n, got.get(fn, 0)) for fn, n in want.items() if got.get(fn, 0) < n}
+            if short and tag != 'to-empty':
+                out['violations'].append({'kind': 'a custom field of the top level was not handed to its CopyFrom hook', 'batch': b['dir'], 'id': op.get('id'),
+                                          'tag': tag, 'type': op.get('type'), 'expected_at_least_vs_called': short})
+                break
+            if short and tag == 'to-empty' and not any(d for d in im.get('diags') or []):
+                # CopyTo skips custom children of a nil embedded message (there is no source value); otherwise every custom field is delegated
+                obj = op.get('obj') if isinstance(op.get('obj'), dict) else {}
+                nil_embed = any(isinstance(v, dict) and v.get('P', 0) is None for v in (obj.get('S') or {}).values())
+                if not nil_embed:
+                    out['violations'].append({'kind': 'a custom field of the top level was not handed to its CopyTo hook', 'batch': b['dir'], 'id': op.get('id'),
+                                              'tag': tag, 'type': op.get('type'), 'expected_at_least_vs_called': short})
+                    break
+    out['coverage']['top_level_hook_calls_checked'] = calls_checked
     return out
 
 
